@@ -206,6 +206,33 @@ def schedule_sites(ctx, prop):
                     roots = root_callers(ctx.repo, f, stop=tuple(PRIORITY_TABLE))
                     if len(roots) == 1 and next(iter(roots)) in PRIORITY_TABLE:
                         q = next(iter(roots))
+                    elif roots and all(r in PRIORITY_TABLE or r == 'Environment.schedule' for r in roots) and f.cls is not None:
+                        # a private helper shared by several classified sites (`_settle` for succeed and fail; `_enqueue`
+                        # taking the priority as a parameter): every caller must get the priority the table gives *it*
+                        bad_root = None
+                        for r in sorted(roots):
+                            # (schedule() itself hands on the priority it was given)
+                            want_r = PRIORITY_TABLE[r][0] if r in PRIORITY_TABLE else 'priority'
+                            got_r = got
+                            if got in f.params:
+                                got_r = None
+                                idx = [p_ for p_ in f.params if p_ != 'self'].index(got)
+                                g = next((x for x in ctx.repo.all_functions() if x.qualname == r), None)
+                                for cn in (walk_local(g.node) if g is not None else []):
+                                    if isinstance(cn, ast.Call) and isinstance(cn.func, ast.Attribute) and cn.func.attr == f.name:
+                                        a_ = cn.args[idx] if len(cn.args) > idx else next((k_.value for k_ in cn.keywords if k_.arg == got), None)
+                                        got_r = 'NORMAL' if a_ is None else (a_.id if isinstance(a_, ast.Name) else ast.unparse(a_))
+                            if got_r != want_r:
+                                bad_root = (r, got_r, want_r)
+                                break
+                        ctx.ob(rule, bad_root is None)
+                        if bad_root is None:
+                            ctx.sample(rule, '%s::%s' % (f.module.relpath, f.qualname), 'shared helper: every classified caller gets its own priority')
+                        else:
+                            ctx.violation(rule, '%s::%s' % (f.module.relpath, f.qualname), 'priority %s for %s, expected %s' % (bad_root[1], bad_root[0], bad_root[2]),
+                                          '%s schedules for %s with priority %s; must be %s' % (f.qualname, bad_root[0], bad_root[1], bad_root[2]),
+                                          where='%s:%d' % (f.module.relpath, node.lineno))
+                        continue
                 construct = '%s::%s' % (f.module.relpath, f.qualname)
                 where = '%s:%d' % (f.module.relpath, node.lineno)
                 if q not in PRIORITY_TABLE:
